@@ -17,6 +17,12 @@ pub enum Ty {
     PM(u32),
     /// `PH<site>`: overrides hooks only
     PH(u32),
+    /// `PV<site>`: overrides `from_value` (handed the literal)
+    PV(u32),
+    /// `PE<site>`: overrides `from_expr` (handed the expression)
+    PE(u32),
+    /// `Override<PV<site>>`
+    OverridePV(u32),
     Opt(Box<Ty>),
     /// Box / Rc / Arc / RefCell
     Boxed(Box<Ty>),
@@ -233,6 +239,18 @@ pub fn meta_receivers() -> BTreeMap<&'static str, RecvDesc> {
     add(recv(
         "S11",
         Struct(vec![f("u", Ty::U8), f("t", Ty::Bool), f("s", Ty::Str), f("c", Ty::Char), f("p", pm(1101)), f("ou", opt(Ty::U8))]),
+    ));
+    add(recv(
+        "S12",
+        Struct(vec![
+            f("v", Ty::PV(1201)),
+            f("ov", opt(Ty::PV(1202))),
+            f("e", Ty::PE(1203)),
+            f("me", Ty::PE(1204)).multiple(),
+            f("sv", opt(Ty::Spanned(Box::new(Ty::PV(1205))))),
+            f("bv", opt(bx(Ty::PE(1206)))),
+            f("ovr", opt(Ty::OverridePV(1207))),
+        ]),
     ));
     add(recv("N1", Struct(vec![f("inner", r("S1")), f("opt", opt(r("S1"))), f("d", r("S5")).dflt()])));
     add(recv("N2", Struct(vec![f("n1", r("N1")), f("p", pm(1301))])));
